@@ -24,6 +24,7 @@ func genC18(t *rapid.T) E1Case {
 	c.Stall = rapid.SampledFrom([]string{"", "", "never"}).Draw(t, "stall")
 	nw := rapid.IntRange(1, 4).Draw(t, "writers")
 	live := false
+	noProbe := false // a streamed reader pushed on by the terminal probe would keep writing chunks beside the harness
 	for w := 0; w < nw; w++ {
 		task := E1Task{Role: "writer"}
 		for i := rapid.IntRange(1, 5).Draw(t, "calls"); i > 0; i-- {
@@ -36,6 +37,7 @@ func genC18(t *rapid.T) E1Case {
 			if nw == 1 && rapid.IntRange(0, 3).Draw(t, "readfrom") == 0 { // single writer only: other writers would interleave with the chunks (C09)
 				// a streamed reader: several low-level writes; the second or third one may find the queue full
 				op = E1Op{Op: "readfrom", Sizes: []int{rapid.SampledFrom([]int{1500, 3000, 4096}).Draw(t, "rfsize")}, N: rapid.SampledFrom([]int{700, 1024, 4096}).Draw(t, "rfstep")}
+				noProbe = true
 			}
 			if (op.Op == "writev" || op.Op == "ctxwritev") && rapid.IntRange(0, 5).Draw(t, "bigvec") == 0 {
 				// a vector beyond the largest pooled size class (65536): all of it is accepted, or none of it
@@ -65,7 +67,7 @@ func genC18(t *rapid.T) E1Case {
 		}
 	}
 	c.Schedule = genSchedule(t, 150)
-	c.Probe = rapid.IntRange(0, 3).Draw(t, "probe") == 0 // costs real time (waits for a goroutine to block)
+	c.Probe = rapid.IntRange(0, 3).Draw(t, "probe") == 0 && !noProbe // costs real time (waits for a goroutine to block)
 	return c
 }
 
